@@ -59,7 +59,12 @@ package aucoalesce
 //@ modifies event.*, elems(event.Warnings), mapOf(event.Data), alloc, execve.data, execve.error, execve.tags
 //@ ensures[C15] event.Data == old(event.Data)
 //@ ensures[C15] msgOK(execve) && execve.data == old(execve.data)
+// C09 no-drop for EXECVE: unless a warning is attached, argc is kept and the arguments a0..a(argc-1) become Process.Args in order.
+//@ ensures[C09] len(event.Warnings) >= old(len(event.Warnings))
+//@ ensures[C09] len(event.Warnings) == old(len(event.Warnings)) ==> "argc" in execve.data && "argc" in event.Data && event.Data["argc"] == execve.data["argc"] && len(event.Process.Args) == strUval(execve.data["argc"], 10)
+//@ ensures[C09] len(event.Warnings) == old(len(event.Warnings)) ==> forall j int :: 0 <= j && j < len(event.Process.Args) ==> ("a" ++ strDec(j)) in execve.data && event.Process.Args[j] == execve.data["a" ++ strDec(j)]
 //@ loop 0 invariant event.Warnings == old(event.Warnings) && event.Data == old(event.Data) && (base(args) == 0 || fresh(args))
+//@ loop 0 invariant[C09] 0 <= i && i <= count && len(args) == i && (forall j int :: 0 <= j && j < i ==> ("a" ++ strDec(j)) in data && args[j] == data["a" ++ strDec(j)])
 //
 //@ func aucoalesce.addPathRecord
 //@ frame-fresh[C15]
